@@ -1,8 +1,14 @@
 """C12 — Task restarts stay within the configured policy.
 Implementation driven: real Controller.postMortemCheck -> _restartComponent/_unstableSystemRestart ->
-real ComponentState.restart/finish -> real Engine.restart / RepeatingEngine.restart, with Engine.run counted
-instead of executed, the restart hook a generated module whose behaviour the harness selects per exit, and
-MonitorExceptionTracker.isSystemStable an oracle."""
+real ComponentState.restart/finish -> real Engine.restart / RepeatingEngine.restart.  For ordinary engines the REAL
+Engine.run() is executed (first launch and every restart): its reactive pipeline (_prime, InitPerformanceInfo,
+LaunchTask on the harness's task generator, SetLaunchTime, Wait, FinalisePerformanceInfo, HandleTaskExit ->
+_setExitReason, emit_now/stateDictionary) runs on immediate schedulers; the start signal (a 1 s timer + 5 s delay in
+production) is a subject the harness fires after the controller has handled the previous exit, which is the order
+of events in production (Engine.restart returns before the new task is launched).  The exit reason the controller
+reads is the one the real engine recorded from the fake task (or from the failing task generator); nothing on the
+engine is set by hand.  The restart hook is a generated module whose behaviour the harness selects per exit,
+MonitorExceptionTracker.isSystemStable an oracle, run() raising inside Engine.restart a separate oracle input."""
 import builtins
 import itertools
 import json
@@ -17,14 +23,26 @@ from common import clist, cZ, cbool, cpair, copt, cstr
 PROP = 'C12'
 COQ_DIR = 'Restart'
 ASSUMPTIONS = [
-    'task outcome (exit reason), restart hook behaviour, system-stability verdict and failure of Engine.run() are oracle inputs',
+    'task outcome (the exit reason a fake task reports after wait(), or the exception its generator raises), restart hook behaviour, '
+    'system-stability verdict and failure of Engine.run() are oracle inputs',
     'history cases run in a working directory without DLMESO CONTROL file (default hook raises IOError on ResourceExhausted); '
     'the CONTROL-file cases drive the real DLMESORestart on generated ASCII files (line pool, 0-5 lines, missing, a directory)',
-    'engine view: the exited engine is dressed with a stub process and launch/finish dates before each exit is handled',
+    'ordinary engines: the real Engine.run() pipeline runs synchronously (thread-pool schedulers -> ImmediateScheduler, op.delay -> identity, '
+    'reactivex.interval/timer -> never, start signal fired by the harness, fake clock advanced by the fake task); repeating engines: '
+    'exitReason() is the per-exit oracle (their monitor loop is not driven here, see C13)',
+    'when run() is made to raise inside Engine.restart the exit reason the real engine had recorded is frozen on exitReason() so that the '
+    'engine still looks dead when the final state is delivered',
     'duck-typed job/specification objects; ComponentState is the real class with its constructor bypassed',
     'threads: RepeatingEngine.restart thread is not started (threading.Thread replaced); time.sleep is a no-op',
 ]
 HEADER = 'Require Import V.Restart.Model.\nOpen Scope Z_scope.'
+# how an exit comes about: the launched task reports it / the task generator raises (Engine.run: LaunchTask)
+LAUNCH_KINDS = {'task': None, 'os': 'GenOSError', 'launch': 'GenLaunchError', 'other': 'GenOtherError'}
+LAUNCH_REASON = {'os': 'SubmissionFailed', 'launch': 'SubmissionFailed', 'other': 'UnknownIssue'}
+
+
+def ev_kind(ev):
+    return ev[4] if len(ev) > 4 else 'task'
 
 REASONS = ['Success', 'KnownIssue', 'SystemIssue', 'SubmissionFailed', 'UnknownIssue', 'Killed', 'Cancelled',
            'ResourceExhausted']
@@ -50,13 +68,55 @@ class _Obj(object):
     pass
 
 
+class FakeTask(object):
+    """what a back-end task is to the engine: alive until wait() returns, then it reports returncode / exitReason /
+    status; the exit reason is the oracle input of the exit"""
+    def __init__(self, drv, reason):
+        import experiment.utilities.data
+        self.drv = drv
+        self.reason = reason
+        self.returncode = None
+        self.exitReason = None
+        self.schedulerId = 'verif'
+        self.status = 'running'
+        self.waits = 0
+        self.kills = 0
+        self._alive = True
+        self.performanceInfo = experiment.utilities.data.Matrix()
+
+    def wait(self):
+        self.waits += 1
+        self.drv.now_ms += 1000
+        self.returncode = 0 if self.reason == 'Success' else 1
+        self.exitReason = self.reason
+        self.status = 'finished' if self.reason == 'Success' else 'failed'
+        self._alive = False
+
+    def isAlive(self):
+        return self._alive
+
+    def kill(self):
+        self.kills += 1
+
+    def poll(self):
+        return self.returncode
+
+
 class Driver(object):
     def __init__(self):
+        import datetime as _dt
+        import threading
+        import reactivex
+        import reactivex.scheduler
+        import reactivex.subject
         import experiment.runtime.engine as E
         import experiment.runtime.control as C
         import experiment.runtime.workflow as W
         import experiment.runtime.monitor as M
-        self.E, self.C, self.W, self.M = E, C, W, M
+        import experiment.runtime.errors as ERR
+        self.E, self.C, self.W, self.M, self.ERR = E, C, W, M, ERR
+        self.threading = threading
+        self.threads0 = threading.active_count()
         self.tmp = tempfile.mkdtemp(prefix='verif_c12_')
         os.makedirs(os.path.join(self.tmp, 'hooks'))
         os.makedirs(os.path.join(self.tmp, 'wd'))
@@ -65,13 +125,68 @@ class Driver(object):
         self.runs = [0]
         self.run_ok = [True]
         self.stable = [True]
+        self.pending = []       # start signals of run() calls whose launch has not happened yet
+        self.launch = None      # (reason, kind) of the next launch
+        self.tasks = []         # tasks / failed launches of the current case
+        self.now_ms = 0
+        drv = self
 
-        def fake_run(eng):
+        # ---- the real Engine.run(), made synchronous ----------------------------------------------------------
+        # thread pools -> immediate scheduler (Engine.__init__ creates the pools only when these are None)
+        self._saved_pools = (E.Engine.enginePoolScheduler, E.Engine.triggerPoolScheduler, E.Engine.taskPoolScheduler)
+        imm = reactivex.scheduler.ImmediateScheduler()
+        E.Engine.enginePoolScheduler = E.Engine.triggerPoolScheduler = E.Engine.taskPoolScheduler = imm
+        self._saved_mods = (E.reactivex, E.op, E.datetime)
+        # reactivex.interval (periodic state emission) / reactivex.timer would start timer threads: never emit
+        rx = types.SimpleNamespace(**{k: getattr(E.reactivex, k) for k in dir(E.reactivex) if not k.startswith('__')})
+        real_never = E.reactivex.never
+        rx.interval = lambda *a, **k: real_never()
+        rx.timer = lambda *a, **k: real_never()
+        E.reactivex = rx
+        # op.delay(ENGINE_LAUNCH_DELAY_SECONDS) schedules on a timer thread: the start signal is not delayed
+        opn = types.SimpleNamespace(**{k: getattr(E.op, k) for k in dir(E.op) if not k.startswith('__')})
+        opn.delay = lambda *a, **k: (lambda source: source)
+        E.op = opn
+        # a clock that advances only while a task runs (FinalisePerformanceInfo divides by the task's run time)
+        epoch = _dt.datetime(2030, 1, 1)
+
+        class FakeDT(_dt.datetime):
+            @classmethod
+            def now(cls, tz=None):
+                return epoch + _dt.timedelta(milliseconds=drv.now_ms)
+        E.datetime = types.SimpleNamespace(datetime=FakeDT, timedelta=_dt.timedelta, date=_dt.date, time=_dt.time)
+
+        self._orig_run = E.Engine.run
+        orig_run = E.Engine.run
+
+        def run(eng, *a, **k):
+            """Engine.run with the oracle 'run() raises' and a start signal the harness fires later (in production
+            a 1 s timer: the launch happens after the caller - Engine.restart, the controller - has returned)"""
             if not self.run_ok[0]:
                 raise RuntimeError('verif: run() fails')
             self.runs[0] += 1
-        self._orig_run = E.Engine.run
-        E.Engine.run = fake_run
+            start = reactivex.subject.Subject()
+            self.pending.append(start)
+            return orig_run(eng, startObservable=start)
+        E.Engine.run = run
+
+        def generator(job, *a, **k):
+            reason, kind = self.launch
+            self.launch = None
+            if kind == 'os':
+                self.tasks.append(None)
+                raise OSError('verif: launch fails')
+            if kind == 'launch':
+                self.tasks.append(None)
+                raise ERR.JobLaunchError('verif: launch fails', ValueError('verif'))
+            if kind == 'other':
+                self.tasks.append(None)
+                raise ValueError('verif: launch fails')
+            t = FakeTask(self, reason)
+            self.tasks.append(t)
+            return t
+        self.generator = generator
+
         C.time.sleep = lambda s: None
         M.MonitorExceptionTracker.defaultTracker().isSystemStable = lambda *a, **k: self.stable[0]
         M.MonitorExceptionTracker.defaultTracker().printStatus = lambda *a, **k: None
@@ -108,8 +223,15 @@ class Driver(object):
         self.ctl = ctl
 
     def close(self):
-        self.E.Engine.run = self._orig_run
+        E = self.E
+        E.Engine.run = self._orig_run
+        E.Engine.enginePoolScheduler, E.Engine.triggerPoolScheduler, E.Engine.taskPoolScheduler = self._saved_pools
+        E.reactivex, E.op, E.datetime = self._saved_mods
         shutil.rmtree(self.tmp, ignore_errors=True)
+        leaked = self.threading.active_count() - self.threads0
+        if leaked > 4:
+            raise RuntimeError('verif C12 driver: %d threads were started and are still alive - the engine under test '
+                               'schedules work on threads the harness does not control' % leaked)
 
     def job(self, cfg, wd=None):
         j = _Obj()
@@ -117,7 +239,9 @@ class Driver(object):
         j.name = 'comp'
         j.type = 'simulator' if cfg['is_sim'] else 'local'
         j.directory = wd or os.path.join(self.tmp, 'wd')
-        j.workingDirectory = types.SimpleNamespace(path=j.directory)
+        # HandleTaskExit writes component_performance.csv there on every task exit and tolerates that it cannot
+        # (IOError): only the CONTROL-file cases get a writable place, the bulk of the cases does no file I/O per exit
+        j.workingDirectory = types.SimpleNamespace(path=j.directory if wd else os.path.join(j.directory, 'absent'))
         j.stageIndex = 0
         inst = self.tmp
         if not cfg['hook_loadable']:
@@ -149,7 +273,7 @@ class Driver(object):
 
     def view(self, eng):
         """what the controller can read off an ordinary engine (real methods on the real attributes)"""
-        inst = eng.__dict__.pop('exitReason', None)     # the per-exit oracle override, see run_case
+        inst = eng.__dict__.pop('exitReason', None)     # the frozen exit reason of a failed run(), see run_case
         try:
             return (eng.exitReason(), eng.returncode(), bool(eng.isAlive()), eng.process is not None,
                     eng._taskLaunched is not None, eng._taskFinished is not None)
@@ -160,15 +284,38 @@ class Driver(object):
     def fresh_view(self, cfg):
         return self.view(self.E.Engine(self.job(cfg), taskGenerator=lambda *a, **k: None))
 
+    def task_exit(self, eng, reason, kind):
+        """the launch a successful run() has scheduled happens now: the REAL LaunchTask .. HandleTaskExit chain runs,
+        the fake task exits with `reason` (or the generator raises).  Returns None or what went wrong."""
+        if len(self.pending) != 1:
+            return 'EXC:%d launches are pending when one task is due' % len(self.pending)
+        start = self.pending.pop()
+        self.launch = (reason, kind)
+        n0 = len(self.tasks)
+        try:
+            start.on_next(0)
+            start.on_completed()
+        except Exception as error:
+            return 'EXC:the launch raised %s' % type(error).__name__
+        if len(self.tasks) != n0 + 1:
+            return 'EXC:the task generator was called %d times by one launch' % (len(self.tasks) - n0)
+        t = self.tasks[-1]
+        if t is not None and (t.waits != 1 or t.kills != 0):
+            return 'EXC:the task was waited for %d times and killed %d times' % (t.waits, t.kills)
+        if eng.exitReason() is None:
+            return 'EXC:the engine recorded no exit reason for a task that has exited'
+        return None
+
     def run_case(self, cfg, hist, wd=None):
         """returns (list of (code, restarts, resub), final or None, list of engine views)"""
-        import datetime
         E = self.E
         job = self.job(cfg, wd)
+        del self.pending[:]
+        del self.tasks[:]
         if cfg['is_rep']:
             eng = E.RepeatingEngine(job, taskGenerator=lambda *a, **k: None)
         else:
-            eng = E.Engine(job, taskGenerator=lambda *a, **k: None)
+            eng = E.Engine(job, taskGenerator=self.generator)
         cs = self.CS(eng, job)
         obs = []
         views = []
@@ -185,19 +332,30 @@ class Driver(object):
         self.ctl._restartComponent = types.MethodType(spy, self.ctl)
         E.threading.Thread = self.FakeThread
         try:
-            for (reason, hook, stable, run_ok) in hist:
+            if not cfg['is_rep'] and hist:
+                # the component is started (ComponentState.run -> Engine.run)
+                self.run_ok[0] = True
+                eng.run()
+            for ev in hist:
+                reason, hook, stable, run_ok = ev[:4]
                 builtins._verif_c12_hook = hook
                 self.stable[0] = stable
                 self.run_ok[0] = run_ok
-                # the task exits: what Engine._setExitReason does with the reason
-                if reason == 'Success':
-                    eng._resubmissionAttempts = 0
-                eng.exitReason = (lambda r=reason: r)
-                if not cfg['is_rep']:
-                    # the engine as a finished task leaves it: process, dates and exit reason set
-                    eng._exitReason = reason
-                    eng.process = StubProcess(reason)
-                    eng._runCalled = eng._taskLaunched = eng._taskFinished = datetime.datetime.now()
+                if cfg['is_rep']:
+                    # repeating engine: the exit reason is the oracle (RepeatingEngine.exitReason is a function of its
+                    # monitor loop, which C13 drives); it has no re-submission counter to maintain
+                    eng.exitReason = (lambda r=reason: r)
+                else:
+                    # the task launched by the last run() exits: the real engine records the reason
+                    bad = self.task_exit(eng, reason, ev_kind(ev))
+                    if bad is not None:
+                        obs.append((bad, eng.restarts, eng.resubmissionAttempts()))
+                        views.append(self.view(eng))
+                        break
+                    if not run_ok:
+                        # run() is going to raise inside Engine.restart, after the engine has been reset: keep what
+                        # the real engine recorded readable so that the final state is delivered to a dead engine
+                        eng.exitReason = (lambda r=eng.exitReason(): r)
                 runs0 = self.runs[0]
                 got.clear()
                 try:
@@ -211,6 +369,8 @@ class Driver(object):
                 started = self.runs[0] - runs0
                 if cfg['is_rep']:
                     started = 1 if code == 'Initiated' else 0
+                elif started != len(self.pending):
+                    started = -1
                 if (code == 'Initiated') != (started == 1):
                     obs[-1] = ('RUNCOUNT:%s:%d' % (code, started), eng.restarts, eng.resubmissionAttempts())
                 if code != 'Initiated':
@@ -224,20 +384,8 @@ class Driver(object):
         finally:
             E.threading.Thread = self._orig_thread
             del self.ctl._restartComponent
+            del self.pending[:]
         return obs, final, views
-
-
-class StubProcess(object):
-    """the attributes of a finished task that Engine.stateDictionary reads"""
-    def __init__(self, reason):
-        self.exitReason = reason
-        self.returncode = 0 if reason == 'Success' else 1
-        self.status = 'finished' if reason == 'Success' else 'failed'
-        self.schedulerId = None
-        self.performanceInfo = types.SimpleNamespace(getElements=lambda: {})
-
-    def isAlive(self):
-        return False
 
 
 # ------------------------------------------------------------------ Coq printing
@@ -250,9 +398,15 @@ def coq_cfg(c):
                 clist(c['shutdown_on'])))
 
 
+def coq_launch(ev):
+    k = ev_kind(ev)
+    return '(TaskExits %s)' % ev[0] if k == 'task' else LAUNCH_KINDS[k]
+
+
 def coq_hist(h):
-    return clist(['{| ev_reason := %s; ev_hook := %s; ev_stable := %s; ev_run_ok := %s |}' % (r, hk, cbool(s), cbool(o))
-                  for (r, hk, s, o) in h])
+    """launch history (l_ev): how each exit came about, the hook's behaviour, the stability verdict, run() outcome"""
+    return clist(['{| lv_launch := %s; lv_hook := %s; lv_stable := %s; lv_run_ok := %s |}' % (
+        coq_launch(ev), ev[1], cbool(ev[2]), cbool(ev[3])) for ev in h])
 
 
 FIN = {'finished': 'Finished', 'component_shutdown': 'Shutdown', 'failed': 'Failed'}
@@ -363,7 +517,8 @@ def predicate(ctx, cfg, hist, obs, final, views=(), fresh=None, extra=None):
     case = dict(extra or {}, cfg=cfg, hist=hist, obs=obs, final=final)
     cont = 0
     consec = 0
-    for (reason, hook, stable, ok), (code, restarts, resub) in zip(hist, obs):
+    for ev, (code, restarts, resub) in zip(hist, obs):
+        reason = ev[0]
         if reason == 'Success':
             consec = 0
         if code == 'Initiated':
@@ -434,8 +589,53 @@ def gen_hist(rng, cfg, n):
     h = []
     pool = list(cfg['hook_on']) * 3 + ['SubmissionFailed'] * 3 + REASONS
     for _ in range(n):
-        h.append((rng.choice(pool), rng.choice(HOOKS + ['HPossible'] * 6), rng.random() < 0.75, rng.random() < 0.95))
+        ev = (rng.choice(pool), rng.choice(HOOKS + ['HPossible'] * 6), rng.random() < 0.75, rng.random() < 0.95)
+        # how the exit comes about: mostly reported by the launched task (as LSF / Kubernetes report a failed
+        # submission), sometimes by the launch itself raising (ordinary engines only)
+        x = rng.random()
+        if not cfg['is_rep'] and x < 0.3:
+            if ev[0] == 'SubmissionFailed':
+                ev = ev + ('os' if x < 0.15 else 'launch',)
+            elif ev[0] == 'UnknownIssue':
+                ev = ev + ('other',)
+        h.append(ev)
     return h
+
+
+def resubmission_family(rng, tier):
+    """long runs of failed submissions - the cap of five consecutive re-submissions is a property of histories of
+    length >= 6, which the small-scope tree does not reach: k failed submissions in a row reported by the launched
+    task / by the launch raising / mixed, with and without a Success in between (Success listed as restartable, so
+    that the component lives on and the count starts again), for several configurations"""
+    base = {'max_restarts': 'absent', 'hook_file': 'HFNone', 'hook_loadable': False, 'hook_on': ['ResourceExhausted'],
+            'is_sim': False, 'sim_restart': False, 'is_rep': False, 'shutdown_on': []}
+    cfgs = [base, dict(base, hook_on=['SubmissionFailed'], max_restarts=-1),
+            dict(base, hook_on=['SubmissionFailed', 'ResourceExhausted'], max_restarts=0),
+            dict(base, hook_on=['KnownIssue', 'SystemIssue', 'UnknownIssue', 'Success'], hook_file='HFNamed', hook_loadable=True),
+            dict(base, hook_on=['Success', 'SubmissionFailed'], max_restarts=5, hook_file='HFEmpty', hook_loadable=True),
+            dict(base, is_sim=True, sim_restart=True, hook_on=['SubmissionFailed', 'Success'], max_restarts=2)]
+
+    def sf(kind='task', ok=True):
+        ev = ('SubmissionFailed', 'HPossible', True, ok)
+        return ev if kind == 'task' else ev + (kind,)
+    succ = ('Success', 'HPossible', True, True)
+    re_ = ('ResourceExhausted', 'HPossible', True, True)
+    out = []
+    for cfg in cfgs:
+        for k in (5, 6, 7, 9):
+            out.append((cfg, [sf()] * k))
+            out.append((cfg, [sf('launch')] * k))
+            out.append((cfg, [sf(('task', 'os', 'task', 'launch')[i % 4]) for i in range(k)]))
+        for a in (1, 3, 5):
+            out.append((cfg, [sf()] * a + [succ] + [sf()] * 7))
+            out.append((cfg, [sf()] * a + [re_] + [sf()] * 7))
+            out.append((cfg, [sf()] * a + [sf('os')] + [succ] + [sf('launch')] * 2 + [sf()] * 5))
+        out.append((cfg, [sf()] * 4 + [sf(ok=False)]))
+        for _ in range(4 if tier == 'quick' else 40):
+            n = rng.randint(6, 14)
+            pool = [sf(), sf(), sf(), sf('os'), sf('launch'), succ, re_]
+            out.append((cfg, [rng.choice(pool) for _ in range(n)]))
+    return out
 
 
 FRESH_CFG = {'max_restarts': 'absent', 'hook_file': 'HFNone', 'hook_loadable': False, 'hook_on': ['ResourceExhausted'],
@@ -477,13 +677,13 @@ def explore(ctx, cases):
                 ctx.sample({'cfg': cfg, 'history': hist, 'observed': obs, 'final': final}, limit=4)
     finally:
         drv.close()
-    bad = ctx.model_mismatches(HEADER, [t[0] for t in terms], 'check_case_views', chunk=400)
+    bad = ctx.model_mismatches(HEADER, [t[0] for t in terms], 'check_case_launch', chunk=400)
     for k, i in enumerate(bad):
         _, cfg, hist, obs, final, views = terms[i]
-        m = ctx.model_eval(HEADER, '(trace %s init_st %s, views %s init_st %s)' % (
+        m = ctx.model_eval(HEADER, '(trace %s init_st (map to_exit_ev %s), views_l %s init_st %s)' % (
             coq_cfg(cfg), coq_hist(hist), coq_cfg(cfg), coq_hist(hist))) if k < 3 else ''
         ctx.disagree({'cfg': cfg, 'hist': hist}, {'obs': obs, 'final': final, 'views': views, 'fresh': fresh}, m,
-                     'C12 trace: postMortemCheck/Engine.restart vs Restart.Model.trace/views')
+                     'C12 trace: Engine.run/_setExitReason/postMortemCheck/Engine.restart vs Restart.Model.trace/views_l')
 
 
 def explore_dlmeso(ctx, hook_cases, chain_cases):
@@ -581,8 +781,11 @@ def run(ctx):
     rng = ctx.rng
     ctx.rule = ('exhaustive: every history of length <= L (quick 3, thorough 4; a history is extended only while restarts are '
                 'initiated - after a refusal no further exit is handled) over 8 exit reasons x {hook says possible, not required, raises} '
-                'for a grid of configurations; plus random configurations x random histories (length <= 12, all 11 hook '
-                'behaviours, stability and run() oracles); plus the real DLMESORestart on generated CONTROL files and the chain '
+                'for a grid of configurations; plus long runs of failed submissions (5-14 exits, reported by '
+                'the task / launch raising / mixed, with and without a Success or a continuation restart in between); plus random '
+                'configurations x random histories (length <= 12, all 11 hook behaviours, stability and run() oracles, 30% of the '
+                'SubmissionFailed/UnknownIssue exits produced by a failing launch); every exit of an ordinary engine goes through the '
+                'real Engine.run() launch/wait/_setExitReason pipeline; plus the real DLMESORestart on generated CONTROL files and the chain '
                 'with the fallback hook in a directory holding such a file; non-trivial = at least one restart initiated '
                 '(hook cases: restart allowed); distinct by (cfg, history) / (reason, file)')
     cases = []
@@ -592,6 +795,9 @@ def run(ctx):
     cases.append((sf, [('SubmissionFailed', 'HJunk', True, True)] * 12))
     rep = dict(sf, hook_on=['KnownIssue'], is_rep=True, max_restarts=None)
     cases.append((rep, [('ResourceExhausted', 'HJunk', False, True), ('ResourceExhausted', 'HJunk', False, True)]))
+    fam = resubmission_family(rng, ctx.tier)
+    ctx.count('resubmission_family', len(fam))
+    cases.extend(fam)
     # exhaustive small scope
     L = 3 if ctx.tier == 'quick' else 4
     grid = []
